@@ -5,8 +5,9 @@ Shape of the argument:
   1. `Base/Hb.lean`: in every well-formed lock trace two accesses by different threads that both hold a
      common lock (at least one of them exclusively) are ordered by a release → acquire chain
      (`lockset_ordered`, `lockset_ordered_wr`, `lockset_ordered_rw`).
-  2. `Generated/Accesses.lean` (regenerated from the working tree on every run): for every shared variable
-     of the anchor packages, every access site with the set of locks that must be held there.
+  2. `Generated/Accesses.lean` (regenerated from the working tree on every run): for every field of the
+     tracked struct types of the anchor packages (and a few declared expressions: heap slice, map
+     entries, package-level variables), every access site with the set of locks that must be held there.
   3. Here: the table is *disciplined* (`table_disciplined`, by kernel evaluation): per variable, outside
      the constructor phase, either nothing writes it, or every access is atomic, or one common lock is
      held at every access (shared mode allowed for reads only).
@@ -42,12 +43,14 @@ def varOk (tbl : List Acc) (v : String) : Bool :=
 
 def disciplined (tbl : List Acc) (vars : List String) : Bool := vars.all (varOk tbl)
 
-/-- Every row of the table belongs to a declared variable (nothing is silently dropped from the check). -/
-def covered (tbl : List Acc) (vars : List String) : Bool := tbl.all (fun r => vars.contains r.v)
+/-- Every row of the table belongs to a variable under the discipline or to one explicitly exempted with a
+reason (nothing is silently dropped from the check). -/
+def covered (tbl : List Acc) (vars : List String) (exempt : List (String × String)) : Bool :=
+  tbl.all (fun r => vars.contains r.v || exempt.any (fun e => e.1 == r.v))
 
-/-- Every declared variable has at least one access row outside the constructor phase — a variable whose
-pattern no longer matches anything in the source would be vacuously disciplined. -/
-def populated (tbl : List Acc) (vars : List String) : Bool := vars.all (fun v => !(rowsOf tbl v).isEmpty)
+/-- Every variable under the discipline has at least one access row — a declared pattern that no longer
+matches anything in the source would otherwise be vacuously disciplined. -/
+def populated (tbl : List Acc) (vars : List String) : Bool := vars.all (fun v => tbl.any (fun r => r.v == v))
 
 /-! ### Semantics: traces conforming to a table -/
 
@@ -145,7 +148,12 @@ theorem no_unordered_conflict {tbl : List Acc} {v : String} (hok : varOk tbl v =
 and every declared variable still has access rows. -/
 theorem table_disciplined : disciplined table sharedVars = true := by decide +kernel
 
-theorem table_covered : covered table sharedVars = true := by decide +kernel
+theorem table_covered : covered table sharedVars exemptVars = true := by decide +kernel
+
+/-- The struct types whose fields are tracked automatically all still exist, and no exempted variable is also
+claimed as disciplined. -/
+theorem tracked_types_present :
+    missingTypes = [] ∧ exemptVars.all (fun e => !sharedVars.contains e.1) = true := by decide +kernel
 
 theorem table_populated : populated table sharedVars = true := by decide +kernel
 
